@@ -1,0 +1,13 @@
+//go:build verif
+
+package mqtt
+
+// VerifHooks, when set, is invoked at named points of interest. The hooks
+// exist for verification harnesses only (build tag verif).
+var verifHooks func(point string)
+
+func verifHookPoint(point string) {
+	if verifHooks != nil {
+		verifHooks(point)
+	}
+}
